@@ -63,6 +63,10 @@ type c19Model struct {
 	Docs     map[int]*c19DocModel
 	NextE    int
 	Indexed  []string // fields that carry a secondary index, in creation order
+	// IndexOn[f][v]: version v carries the index on f (the version it was created under and the versions
+	// patched from a version that carried it); LastWrite[d]: version active when document d was last written
+	IndexOn   map[string]map[int]bool
+	LastWrite map[int]int
 }
 
 func (m *c19Model) activeHas(f string) bool {
@@ -270,7 +274,16 @@ func c19Single(r *rep.Run, st *c19Stats, H int) error {
 }
 
 func c19Clone(m *c19Model) *c19Model {
-	n := &c19Model{Active: m.Active, NextE: m.NextE, Docs: map[int]*c19DocModel{}, Indexed: append([]string{}, m.Indexed...)}
+	n := &c19Model{Active: m.Active, NextE: m.NextE, Docs: map[int]*c19DocModel{}, Indexed: append([]string{}, m.Indexed...), IndexOn: map[string]map[int]bool{}, LastWrite: map[int]int{}}
+	for f, vs := range m.IndexOn {
+		n.IndexOn[f] = map[int]bool{}
+		for v, b := range vs {
+			n.IndexOn[f][v] = b
+		}
+	}
+	for d, v := range m.LastWrite {
+		n.LastWrite[d] = v
+	}
 	for _, v := range m.Versions {
 		n.Versions = append(n.Versions, c19Version{v.ID, append([]string{}, v.Fields...)})
 	}
@@ -286,6 +299,16 @@ func c19Clone(m *c19Model) *c19Model {
 
 // c19ModelApply updates the model; newVersion is the id of a version created by a patch.
 func c19ModelApply(m *c19Model, o c19Op, newVersion string) {
+	if m.IndexOn == nil {
+		m.IndexOn = map[string]map[int]bool{}
+	}
+	if m.LastWrite == nil {
+		m.LastWrite = map[int]int{}
+	}
+	switch o.Kind {
+	case "create", "update":
+		m.LastWrite[o.Arg] = m.Active
+	}
 	switch o.Kind {
 	case "create":
 		d := &c19DocModel{Vals: map[string]any{"name": fmt.Sprintf("d%d", o.Arg), "n": int64(o.Arg)}, Counter: 1}
@@ -305,6 +328,11 @@ func c19ModelApply(m *c19Model, o c19Op, newVersion string) {
 	case "patch", "patch-inactive":
 		v := c19Version{ID: newVersion, Fields: append(append([]string{}, m.Versions[m.Active].Fields...), c19Added[o.Arg].Name)}
 		m.Versions = append(m.Versions, v)
+		for _, vs := range m.IndexOn {
+			if vs[m.Active] {
+				vs[len(m.Versions)-1] = true
+			}
+		}
 		m.NextE++
 		if o.Kind == "patch" {
 			m.Active = len(m.Versions) - 1
@@ -312,7 +340,9 @@ func c19ModelApply(m *c19Model, o c19Op, newVersion string) {
 	case "switch":
 		m.Active = o.Arg
 	case "index":
-		m.Indexed = append(m.Indexed, []string{"name", c19Added[0].Name}[o.Arg])
+		f := []string{"name", c19Added[0].Name}[o.Arg]
+		m.Indexed = append(m.Indexed, f)
+		m.IndexOn[f] = map[int]bool{m.Active: true}
 	}
 }
 
@@ -354,7 +384,11 @@ func c19RunHistory(r *rep.Run, st *c19Stats, hist []c19Op) error {
 	}
 	m := &c19Model{Versions: []c19Version{{ID: v0}}, Docs: map[int]*c19DocModel{}}
 	viol := func(kind string, step int, detail string) {
-		r.Violation(rep.Violation{Fingerprint: "C19:" + kind + ":" + hist[step].Kind,
+		fp := "C19:" + kind + ":" + hist[step].Kind
+		if strings.Contains(kind, "document-written-under-a-version-without-the-index") {
+			fp = "C19:" + kind // one defect, whatever operation comes next
+		}
+		r.Violation(rep.Violation{Fingerprint: fp,
 			Summary: fmt.Sprintf("history %v step %d (%v): %s", hist, step, hist[step], detail), Replay: map[string]any{"part": "single", "history": hist}})
 	}
 	for si, o := range hist {
@@ -533,7 +567,36 @@ func c19RunHistory(r *rep.Run, st *c19Stats, hist []c19Op) error {
 				}
 				sort.Strings(got)
 				if len(ierrs) > 0 || fmt.Sprint(got) != fmt.Sprint(want) {
-					viol("index-backed-listing", si, fmt.Sprintf("%s returns %v %v, live documents %v (indexes on %v)", req, got, ierrs, want, m.Indexed))
+					// known defect: an index belongs to the collection version it was created under (and to
+					// versions patched from it); a document written while another version is active is not
+					// entered, and is missing from index-backed reads once a version with the index is active again
+					class := "index-backed-listing"
+					if len(ierrs) == 0 && m.IndexOn[f][m.Active] {
+						gotSet := map[string]bool{}
+						for _, g := range got {
+							gotSet[g] = true
+						}
+						onlyKnown := len(got) < len(want)
+						wantSet := map[string]bool{}
+						for i, d := range m.Docs {
+							if d.Deleted {
+								continue
+							}
+							wantSet[d.ID] = true
+							if !gotSet[d.ID] && m.IndexOn[f][m.LastWrite[i]] {
+								onlyKnown = false
+							}
+						}
+						for _, g := range got {
+							if !wantSet[g] {
+								onlyKnown = false
+							}
+						}
+						if onlyKnown {
+							class = "index-backed-listing:document-written-under-a-version-without-the-index"
+						}
+					}
+					viol(class, si, fmt.Sprintf("%s returns %v %v, live documents %v (indexes on %v)", req, got, ierrs, want, m.Indexed))
 				}
 			}
 		}
